@@ -23,6 +23,7 @@ type State struct {
 	inputs   []InputDecl
 	obs      []Observation
 	obsBad   bool
+	lastNowSec, lastNowNsec *Term
 	tag      string // deliberate case splits (vChoice, vBytesEach, concretize): states with different tags never merge
 }
 
@@ -47,6 +48,7 @@ func (s *State) fork() *State {
 	n.obs = append([]Observation(nil), s.obs...)
 	n.obsBad = s.obsBad
 	n.tag = s.tag
+	n.lastNowSec, n.lastNowNsec = s.lastNowSec, s.lastNowNsec
 	return n
 }
 
@@ -285,6 +287,13 @@ func (e *Exec) tryMergeStates(a, b *State) (m *State, cond *Term, ok bool) {
 	n.pc = append([]*Term(nil), a.pc[:k]...)
 	n.pc = append(n.pc, tc.Or(ca, cb))
 	n.noMerge = false
+	if a.lastNowSec != nil && b.lastNowSec != nil {
+		n.lastNowSec, n.lastNowNsec = tc.Ite(ca, a.lastNowSec, b.lastNowSec), tc.Ite(ca, a.lastNowNsec, b.lastNowNsec)
+	} else if a.lastNowSec != nil {
+		n.lastNowSec, n.lastNowNsec = a.lastNowSec, a.lastNowNsec
+	} else {
+		n.lastNowSec, n.lastNowNsec = b.lastNowSec, b.lastNowNsec
+	}
 	seenIn := map[string]bool{}
 	for _, d := range a.inputs {
 		seenIn[d.Name] = true
